@@ -163,6 +163,29 @@ pub fn c03(c: &mut Ctx, b: &Budget) {
             c.check("unelide-accepts-original", c.is_ok(&good), "unelide", || "unelide of the original refused".into());
             if !same { let okb = c.is_ok(&bad); c.check("unelide-rejects-other", !okb, "unelide", || "unelide accepted an envelope with another digest".into()); }
         }
+        // the receiver need not be a bare ELIDED element: a partially elided envelope, a wrapper around an elided element, or
+        // the placeholder left by the encrypt / compress action - un-eliding still accepts exactly an equal digest, and hands
+        // back the envelope it was given
+        {
+            let (ts, _) = gen_targets(c, &e, 2, false);
+            let act = match c.rng.below(3) { 0 => "elide".to_string(), 1 => "compress".to_string(), _ => format!("encrypt:{}", KEY1) };
+            let partial = if c.rng.chance(1, 4) { let el = c.assign(&format!("elide {}", e)); c.assign(&format!("wrap {}", el)) } else { c.assign(&format!("elide_set {} rem {} {}", e, act, ts)) };
+            if let Some(pe) = c.env(&partial) {
+                let fuller = if pe.digest() == orig.digest() { e.clone() } else { let w = c.assign(&format!("wrap {}", e)); w };
+                let back = c.assign(&format!("unelide {} {}", partial, fuller));
+                c.obs(&format!("shape {}", back));
+                let matches = c.env(&fuller).map(|f| f.digest() == pe.digest()).unwrap_or(false);
+                if matches {
+                    let okf = c.env(&back).zip(c.env(&fuller)).map(|(b, f)| b.is_identical_to(&f)).unwrap_or(false);
+                    c.check("unelide-returns-the-given-envelope", okf, "unelide", || format!("unelide of {} with an equal-digest envelope did not return that envelope", shape(&pe)));
+                }
+                let foreign = gen_env(c, &cfg, 1);
+                let differs = c.env(&foreign).map(|f| f.digest() != pe.digest()).unwrap_or(false);
+                let bad = c.assign(&format!("unelide {} {}", partial, foreign));
+                if differs { let okb = c.is_ok(&bad); c.check("unelide-rejects-other", !okb, "unelide", || format!("unelide on the receiver {} accepted an envelope with another digest", shape(&pe))); }
+                c.count("branch:unelide-non-placeholder-receiver");
+            }
+        }
         c.end();
     }
 }
@@ -402,7 +425,9 @@ pub fn c13(c: &mut Ctx, b: &Budget) {
     let cfg = GenCfg::default();
     let payloads: Vec<CBOR> = vec!["".into(), "a".into(), "aaaaaaaaaaaaaaaaaaaaaaaaaaaaaaaaaaaaaaaaaaaaaaaaaaaaaaaaaaaaaaaaaaaaaaaaaaaaaaaaaaaaaaaaaaaaaaaaaaaaaaaaaaaaaaaaaaaaaaaaaaaaaaaaaaaa".into(),
         "Lorem ipsum dolor sit amet consectetur adipiscing elit mi nibh ornare proin blandit diam ridiculus, faucibus mus dui eu vehicula nam donec dictumst sed vivamus bibendum aliquet efficitur.".into(),
-        CBOR::to_byte_string((0..200u32).map(|x| (x.wrapping_mul(2654435761) >> 13) as u8).collect::<Vec<u8>>())];
+        CBOR::to_byte_string((0..200u32).map(|x| (x.wrapping_mul(2654435761) >> 13) as u8).collect::<Vec<u8>>()),
+        // payloads that deflate better than 100:1 and better than 1000:1
+        CBOR::to_byte_string(vec![0u8; 4096]), "A".repeat(8192).as_str().into(), CBOR::to_byte_string(vec![0u8; 300_000])];
     for i in 0..b.scenarios {
         c.begin("compress");
         let mut e = match i % 8 {
